@@ -387,7 +387,25 @@ class World:
 
     # ------------------------------------------------------------------ clone-based probes
 
-    def probe_in_progress(self, who, mid):
+    def probe_in_progress(self, who, mid, kind=None):
+        """Kind-aware wrapper: for a server the probe response is of the kind matching the request (a stricter server
+        may refuse kind-mismatched responses); returns None when the state does not allow such a probe."""
+        se = self.s[who]
+        if se.role == "s" and kind in ("SearchRequest", "ExtendedRequest"):
+            cp = self.clone(who)
+            if state_name(cp) != "OPENED":
+                return None
+            try:
+                if kind == "SearchRequest":
+                    cp.search_result_entry(mid, "", [])
+                else:
+                    cp.extended_response(mid)
+                return True
+            except Exception:  # noqa: BLE001
+                return False
+        return self._probe_in_progress_any(who, mid)
+
+    def _probe_in_progress_any(self, who, mid):
         """Does the session treat `mid` as an operation in progress?  Asked of a deep copy:
         client - does it accept a BindResponse(saslBindInProgress) carrying that id;
         server - does it accept bind_response(id, saslBindInProgress)."""
@@ -412,7 +430,7 @@ class World:
         cp = self.clone(who)
         try:
             cp.search_result_entry(mid, "", [])
-            cp.bind_response(mid, result_code=sansldap.LDAPResultCode.SASL_BIND_IN_PROGRESS)
+            cp.search_result_entry(mid, "", [])
             return True
         except Exception:  # noqa: BLE001
             return False
